@@ -1132,6 +1132,10 @@ func gen(tier string, emit func(engine.Case) bool) {
 		n++
 		for ri, r := range realisations(b, thorough) {
 			d := Data{Content: b, Real: r, Names: names, MaxSchema: maxSchema, Parts: parts, Swap: thorough}
+			if r.Kind == "merged" && len(r.Cuts) == 3 {
+				// merges of three files: the smaller schema space
+				d.Names, d.MaxSchema, d.Swap = "abxy", 3, false
+			}
 			if !emit(engine.Case{ID: fmt.Sprintf("%d/%04d/%02d-%s", len(b), n, ri, r.Kind), Data: d}) {
 				return false
 			}
